@@ -6,7 +6,7 @@ import tempfile
 
 from engine import gen_states, pool_map
 from props.coords_common import segs_of, cigar_for, nid
-from readers import gaf_record, line_at, load_pickle, read_text, run_cli, write_text
+from readers import eol_for, gaf_record, line_at, load_pickle, read_text, run_cli, write_text
 
 
 def gfa_text(segs, links):
@@ -36,7 +36,11 @@ def make_records(segs, walks, rnd):
         for ps, pe in spans:
             L = pe - ps
             cg, a = cigar_for(L)
-            lines.append(f"q{wi}_{ps}_{pe}\t{L + 2}\t1\t{L + 1}\t+\t{path}\t{plen}\t{ps}\t{pe}\t{a}\t{L}\t{(ps * 7 + pe) % 61}\ttp:A:P\tcg:Z:{cg}\tNM:i:3")
+            # every third walk's reads carry a non-ASCII character in the name, every third an extra Z field with one:
+            # byte offsets and character offsets of the following records then differ
+            uni = "\u00e9" if wi % 3 == 1 else ""
+            tail = "\tzd:Z:a\u00f1b" if wi % 3 == 2 else ""
+            lines.append(f"q{wi}{uni}_{ps}_{pe}\t{L + 2}\t1\t{L + 1}\t+\t{path}\t{plen}\t{ps}\t{pe}\t{a}\t{L}\t{(ps * 7 + pe) % 61}\ttp:A:P\tcg:Z:{cg}\tNM:i:3{tail}")
     rnd.shuffle(lines)
     return lines
 
@@ -105,7 +109,7 @@ def run_session(job):
         ulines = make_records(segs, st["walks"], rnd)
         ext = ".gz" if bgzf else ""
         U = os.path.join(d, "u.gaf" + ext)
-        write_text(U, "\n".join(ulines) + "\n", storage, block=opts.get("block", 300))
+        write_text(U, "\n".join(ulines) + eol_for(sid), storage, block=opts.get("block", 300))
         cases = []
         # whole-file conversions (also the reference for --format selections)
         cs = os.path.join(d, "conv_s.gaf")
@@ -114,7 +118,7 @@ def run_session(job):
         files = [("unstable", U, ulines)]
         if slines is not None and len(slines) == len(ulines):
             S = os.path.join(d, "s.gaf" + ext)
-            write_text(S, "\n".join(slines) + "\n", storage, block=opts.get("block", 300))
+            write_text(S, "\n".join(slines) + eol_for(sid), storage, block=opts.get("block", 300))
             files.append(("stable", S, slines))
         for fmt, F, lines in files:
             other = "stable" if fmt == "unstable" else "unstable"
